@@ -25,10 +25,10 @@ from vlib import common
 SV_NORM = 10.0       # |norm - 1|            <= SV_NORM * steps * tol          (observed <= 3e-4)
 SV_ENERGY = 10.0     # |E - E0| / scale      <= SV_ENERGY * steps * tol        (observed <= 4e-5; <H^2>: 2e-2)
 MPS_NORM = 1.0       # |norm - 1|            <= MPS_NORM * steps * precision   (observed <= 1e-9)
-MPS_ENERGY = 1e-3    # |E - E0| / scale      <= 1e-11 + MPS_ENERGY * steps * precision   (observed <= 8e-6 * steps * precision)
-MPS_ENERGY2 = 0.1    # |<H^2> - <H^2>0| / scale^2 <= 5e-7 + MPS_ENERGY2 * steps * precision (observed <= 1e-2 * steps * precision;
+MPS_ENERGY = 1e-4    # |E - E0| / scale      <= 1e-12 + MPS_ENERGY * steps * precision   (observed <= 8e-6 * steps * precision)
+MPS_ENERGY2 = 0.1    # |<H^2> - <H^2>0| / scale^2 <= 2.5e-6 + MPS_ENERGY2 * steps * precision (observed <= 1e-2 * steps * precision;
                      # the floor is the fixed 1e-5 compression of the H^2 operator, observed <= 4e-8 at precision 1e-7)
-MPS_E_FLOOR, MPS_E2_FLOOR = 1e-11, 5e-7
+MPS_E_FLOOR, MPS_E2_FLOOR = 1e-12, 2.5e-6   # <H^2> floor: >= 5 x the 4.4e-7 seen on XY chains at precision 1e-7
 FLOOR = 1e-6         # absolute floor: torch.linalg.matrix_exp / rounding level effects (observed <= 6e-9) x >100
 
 PINS = {
@@ -319,7 +319,7 @@ def check_switch_case(ctx, case):
         worst_c = max(worst_c, (max(ee) - min(ee)) / scale, (max(ee2) - min(ee2)) / scale ** 2)
         s = e_
     unit = steps * case["tol"]
-    lim_c = (FLOOR + SV_ENERGY * unit) if sv else (MPS_E2_FLOOR + MPS_ENERGY2 * unit)
+    lim_c = (FLOOR + SV_ENERGY * unit) if sv else (MPS_E2_FLOOR + 1.0 * unit)
     lim_d = (FLOOR + SW_SV_DENSE * unit) if sv else SW_MPS_DENSE
     cal = ctx.extra.setdefault("calibration", {})
     b = case["backend"]
@@ -553,7 +553,7 @@ def gen_sym_case(rng, tier_thorough, family, big=False):
     windows = rng.choice([1, 1, 2])
     per = rng.randint(2, 4)
     steps = windows * per
-    dt = rng.choice([5.0, 10.0, 20.0]) if xy else rng.choice([20.0, 40.0])
+    dt = rng.choice([5.0, 10.0, 20.0]) if xy else rng.choice([30.0, 50.0])
     c = rng.choice([1.0, 2.0, 4.0]) if xy else rng.choice([2.0, 4.0, 8.0])
     U = np.zeros((n, n))
     for i in range(n):
@@ -624,7 +624,7 @@ def run(ctx):
                 "StateResult at every step boundary; every such case is non-trivial. Plus emu-mps families whose MPO site "
                 "operators are not real symmetric: XY (mw_global) chains of 4-10 atoms (1/r^3 exchange, dt 5-20 ns, phase zero / "
                 "global / per-atom) and Rydberg chains of 3-12 atoms with constant global or per-atom phases that are not "
-                "multiples of pi (dt 20-40 ns, precision 1e-7), 1-2 windows: energy and second moment per window. Plus constant-drive runs (2-7 atom chains, "
+                "multiples of pi (dt 30-50 ns, precision 1e-7), 1-2 windows: energy and second moment per window. Plus constant-drive runs (2-7 atom chains, "
                 "both backends) whose interaction matrix switches once (rows/columns of 1-2 atoms zero before t_switch, "
                 "on a grid time or inside a step): energy and second moment constant inside every window of constant "
                 "(drive, matrix) and equal to the dense value of the window's Hamiltonian on the dense-evolved state; "
